@@ -119,6 +119,58 @@ def run(repo, rep):
     _mp, _nm = _smp(repo)
     rep.check(not _mp, 'C15.V6', 'dulprovider+fsm+asceprovider:socket-mode', repo.module('dulprovider').relpath,
               '%d mode switch(es), none leaves the transport non-blocking' % _nm, '; '.join(_mp[:4]))
+    rep.rule('C15.V7', 'registering a service never takes a SOP class out of file reception by default: every path of add_scu / add_scp '
+             '(update_context_def_list and helpers included) that removes entries from the store_in_file set is under a test that '
+             'someone said so explicitly -- a store_in_file value that ``is not None`` -- not under the mere absence of the setting', 2)
+    ae_ = repo.cls('applicationentity', 'AEBase')
+    for cname_, mname_ in (('AEBase', 'add_scu'), ('AE', 'add_scp')):
+        k_ = repo.cls('applicationentity', cname_)
+        f_ = k_.find_method(mname_)
+        if f_ is None:
+            continue
+        rep.analysed(f_)
+
+        def ev7(call, callee, client, state):
+            recv, _, last = callee.rpartition('.')
+            if recv.endswith('store_in_file') and last in ('difference_update', 'discard', 'remove', 'clear', 'pop', 'intersection_update',
+                                                           'symmetric_difference_update'):
+                return 'unfile'
+            return None
+        env_ = {}
+        named_ = [a.arg for a in f_.node.args.args]
+        dfl_ = f_.node.args.defaults
+        for p_, d_ in zip(named_[len(named_) - len(dfl_):], dfl_):
+            if p_ not in ('sop_classes',) and isinstance(d_, ast.Constant):
+                env_[p_] = repr(d_.value)
+        c7 = SymClient(repo, f_, event_of=ev7, hierarchy=exc_hierarchy(repo),
+                       inline=lambda fi_: repo.is_helper(fi_) or fi_.name in ('update_context_def_list', '_build_context_def_list'))
+        c7.run(empty_state(env_))
+        p7 = []
+        n7 = 0
+        for e7, s7 in c7.log:
+            if e7.kind != 'unfile':
+                continue
+            n7 += 1
+            def can_be_none(cn):
+                subj = cn[1:].rsplit(' is ', 1)[0]
+                try:
+                    se = ast.parse(subj, mode='eval').body
+                except SyntaxError:
+                    return False
+                if isinstance(se, ast.Call) and isinstance(se.func, ast.Name) and se.func.id in ('bool', 'int', 'str', 'len', 'list', 'tuple', 'set'):
+                    return False          # such a value is never None: the test says nothing
+                if isinstance(se, ast.Call) and isinstance(se.func, ast.Name) and se.func.id == 'getattr' and len(se.args) == 3 \
+                        and not (isinstance(se.args[2], ast.Constant) and se.args[2].value is None):
+                    return False
+                return not isinstance(se, (ast.Constant, ast.Compare, ast.BoolOp))
+            explicit = any((cn.startswith('+') and cn.endswith(' is not None') or cn.startswith('-') and cn.endswith(' is None'))
+                           and 'store_in_file' in cn and can_be_none(cn) for cn in e7.conds)
+            if not explicit:
+                p7.append('%s(service) with store_in_file left at its default reaches %s (line %d) on a path that only knows the setting '
+                          'is false-ish [%s]: a service that says nothing about files takes SOP classes another service registered '
+                          'for file reception back into memory' % (mname_, e7.callee, e7.line, ' '.join(cn for cn in e7.conds if 'store_in_file' in cn)[:160]))
+        rep.check(not p7, 'C15.V7', 'applicationentity:%s.%s:file-reception-kept' % (cname_, mname_), f_.loc(),
+                  '%d removal site(s), each under an explicit setting' % n7, '; '.join(sorted(set(p7))))
     rep.trust('C01/C06/C07 for the byte path; CPython open() modes; pydicom for data-set encoding')
     rep.assume('NOT DECIDED by this family: end-to-end integrity over real TCP with real threads for all sizes / syntaxes')
     rep.rule('C15.V1', 'the directory-backed get_file creates files exclusively or opens exactly the name it proved unused', 3)
